@@ -23,7 +23,7 @@ def all_in(xs, lo, hi):
 def _scoped_mut(events: List[int]) -> bool:
     """
     pre: 1 <= len(events) <= 4
-    pre: all_in(events, 0, 7)
+    pre: all_in(events, 0, 8)
     post: _
     """
     return M.scoped_impl(events)
